@@ -91,6 +91,9 @@ def check(argv):
     tier, seed = env_tier_seed(argv)
     report = Report("C16", tier, seed, "other", f"./vt check C16 --tier {tier}")
     params = KC.tier_params(tier)
+    from contracts import idexpr
+
+    idexpr.run(report, {"context"})
     fam = KC.family_for(tier, seed, params["per_assignment"] * 2)
     t0 = time.time()
     with mp.get_context("fork").Pool(16) as pool:
@@ -117,7 +120,7 @@ def check(argv):
     report.samples = [dict(key=r["key"], qualifying=r["ks"]) for r in res if r["ks"]][:6]
     report.trusted.append("dead-variable analysis of standins/static_ir.py is syntactic (occurrence count of <k>_dim)")
     report.assumptions = COMMON_ASSUMPTIONS
-    return report.finish(explanation="Kind B, per evaluate kernel of the family with a qualifying index k (all inputs): the variable k_dim is dead after its declaration, "
+    return report.finish(explanation="Kind A: extract_context*, Context.add/multiply proved against the documented sparsity rule sparse_spec (all expressions, all indexes). Kind B, per evaluate kernel of the family with a qualifying index k (all inputs): the variable k_dim is dead after its declaration, "
                          "so no loop bound, branch or position can depend on the dimension size. Kind C: executed loop iterations and steps are identical when "
                          "the dimension is scaled x1, x10, x10^4 with the same stored entries.")
 
